@@ -5,6 +5,7 @@ package main
 
 import (
 	"fmt"
+	"reflect"
 	"strconv"
 	"strings"
 
@@ -12,9 +13,24 @@ import (
 	"github.com/IrineSistiana/mosproxy/internal/pool"
 )
 
+// The reserved header bit Z lives in dnsmsg.Header.Zero. It is accessed by name so that the harness
+// also builds against a tree whose Header has no such field (there the bit cannot be represented:
+// it reads as 0 and cannot be set — which is what the `reencode` and `pack` oracles then report).
+func hdrZero(h *dnsmsg.Header) bool {
+	f := reflect.ValueOf(h).Elem().FieldByName("Zero")
+	return f.IsValid() && f.Kind() == reflect.Bool && f.Bool()
+}
+
+func setHdrZero(h *dnsmsg.Header, v bool) {
+	f := reflect.ValueOf(h).Elem().FieldByName("Zero")
+	if f.IsValid() && f.Kind() == reflect.Bool && f.CanSet() {
+		f.SetBool(v)
+	}
+}
+
 func hdrText(h dnsmsg.Header) string {
-	return fmt.Sprintf("h=%d,%s,%d,%s,%s,%s,%s,%s,%s,%d", h.ID, b2s(h.Response), h.OpCode, b2s(h.Authoritative),
-		b2s(h.Truncated), b2s(h.RecursionDesired), b2s(h.RecursionAvailable), b2s(h.AuthenticData), b2s(h.CheckingDisabled), h.RCode)
+	return fmt.Sprintf("h=%d,%s,%d,%s,%s,%s,%s,%s,%s,%d,%s", h.ID, b2s(h.Response), h.OpCode, b2s(h.Authoritative),
+		b2s(h.Truncated), b2s(h.RecursionDesired), b2s(h.RecursionAvailable), b2s(h.AuthenticData), b2s(h.CheckingDisabled), h.RCode, b2s(hdrZero(&h)))
 }
 
 func rrText(sec string, r dnsmsg.Resource) string {
@@ -136,12 +152,15 @@ func parseMsg(c string) *dnsmsg.Msg {
 		switch k {
 		case "h":
 			f := strings.Split(v, ",")
-			if len(f) != 10 {
+			if len(f) != 10 && len(f) != 11 { // the 11th field (reserved bit Z) may be omitted = 0
 				continue
 			}
 			m.Header = dnsmsg.Header{ID: uint16(u(f[0])), Response: f[1] == "1", OpCode: dnsmsg.OpCode(u(f[2])), Authoritative: f[3] == "1",
 				Truncated: f[4] == "1", RecursionDesired: f[5] == "1", RecursionAvailable: f[6] == "1", AuthenticData: f[7] == "1",
 				CheckingDisabled: f[8] == "1", RCode: dnsmsg.RCode(u(f[9]))}
+			if len(f) == 11 {
+				setHdrZero(&m.Header, f[10] == "1")
+			}
 		case "q":
 			f := strings.Split(v, ",")
 			if len(f) != 3 {
